@@ -30,6 +30,7 @@ REQUIRED = {
     tier: {
         'curves-vs-quadrature': 300,
         'refinements-compared': 300,
+        'grids-in-other-containers-compared': 200,
         'grid:straddle-low': 20, 'grid:straddle-high': 20, 'grid:beyond-low': 20, 'grid:beyond-high': 20, 'grid:cover': 20,
         'peatclsm-curves': 20,
         'integer-typed-grids': 20,
@@ -96,6 +97,31 @@ def check_function_case(ctx, rng, params):
     if float(np.min(f(np.linspace(grid[0], grid[-1], 400)))) >= 0 and np.any(np.diff(W) < -1e-12 * scale):
         rec.violation('decreases-with-level-although-specific-yield-is-non-negative', {'W': W.tolist()[:10]}, case, 'rise_fn')
         return
+    # the same grid in another container: read-only, a strided view, big-endian -- same curve,
+    # the caller's grid unchanged
+    k = rec.evaluations % 3
+    other = grid.copy()
+    if k == 0:
+        other.setflags(write=False)
+    elif k == 1:
+        wide = np.empty((len(grid), 2))
+        wide[:, 0], wide[:, 1] = grid, -1.0
+        other = wide[:, 0]
+    else:
+        other = grid.astype('>f8')
+    form = ['read-only', 'strided view', 'big-endian'][k]
+    try:
+        W3 = np.asarray(sim.compute_rise_curve(sy, other, mean), dtype=float)
+    except Exception as exc:  # pylint: disable=broad-except
+        rec.violation('grid-refused-in-another-container', {'form': form, 'exception': core.describe_exception(exc)}, case, 'rise_fn')
+        return
+    if not np.array_equal(np.asarray(other, dtype=float), grid):
+        rec.violation('grid-handed-in-is-modified', {'form': form}, case, 'rise_fn')
+        return
+    if W3.shape != W.shape or float(np.max(np.abs(W3 - W))) > 1e-12 * max(scale, float(np.max(np.abs(W)))):
+        rec.violation('curve-depends-on-the-container-of-the-grid', {'form': form, 'max_difference': float(np.max(np.abs(W3 - W)))}, case, 'rise_fn')
+        return
+    rec.hit('grids-in-other-containers-compared')
     # refinement
     fine = np.sort(np.concatenate([grid, 0.5 * (grid[:-1] + grid[1:]), [grid[0] + (grid[1] - grid[0]) / 3]]))
     W2 = np.asarray(sim.compute_rise_curve(sy, fine.copy(), 0.0), dtype=float)
